@@ -212,7 +212,7 @@ fn run_sgr_pre(pre: &str, seqs: &[Vec<Vec<Option<u32>>>], c1: bool) -> Result<()
 fn run_sgr_inner(pre: &str, seqs: &[Vec<Vec<Option<u32>>>], c1: bool) -> Result<(), String> {
     // feed each SGR in lock-step, then print + erase and compare cells
     let cfg = Cfg::new(2, 1, Some(0));
-    let mut st = LSt { vt: cfg.build(), model: RefTerm::new(2, 1), dead: false, twin: None };
+    let mut st = LSt { vt: cfg.build(), model: RefTerm::new(2, 1), dead: false, twins: vec![] };
     st.model.no_scrollback = true;
     for toks in seqs {
         if !pre.is_empty() {
